@@ -42,13 +42,13 @@ INFO = {
     "C15": {
         "functions": [PROTO + "{ethernet,vlan,ipv4,ipv6,tcp,udp}.rs: X::from_bytes, From<&XHeader> for Vec<u8>, From<&X> for Vec<u8>",
                       "src/builtins/pcap.rs: PcapPacketHeader::from_bytes, From<&PcapPacketHeader>, From<&PcapPacket> (hook H1)"],
-        "bounds": "per stamp: buffer length <= 78 bytes, header offset in {0,14,18}, IPv4 version/IHL byte enumerated; inner cache empty",
+        "bounds": "per stamp: buffer length <= 78 bytes, header offset in {0,14,18,22}, IPv4 version/IHL byte enumerated; inner cache empty",
         "outside": "composition through cached inner layers incl. cached error objects (argued in DESIGN 4/C15, not solver-decided), pcap_write/write/filter output glue",
         "assumptions": [],
     },
     "C16": {
         "functions": [PROTO + "*.rs: X::from_bytes and every numeric get_*; payload offset field", "src/builtins/pcap.rs: PcapGlobalHeader::from_bytes, PcapPacketHeader::from_bytes, PcapPacket getters (H1), Pcap getters (H4)"],
-        "bounds": "per stamp: buffer length <= 78 bytes, header offset in {0,14,18}, IPv4 version/IHL byte enumerated (one stamp symbolic)",
+        "bounds": "per stamp: buffer length <= 78 bytes, header offset in {0,14,18,22}, IPv4 version/IHL byte enumerated (one stamp symbolic)",
         "outside": "addresses as text, payload array construction, $n / named-layer descent (VM::get_inner), property-name table (parser)",
         "assumptions": ["TCP 'flags' must equal ONE of the RFC 9293-consistent readings (8, 9 or 12 bits) for all inputs (any-of group)"],
     },
